@@ -1,5 +1,5 @@
 import HyperModel.Proofs.EHeap
-import HyperModel.Model.EMap
+import HyperModel.Proofs.EMap
 /-!
 # C25 — expiry-indexed sets behave like a set of IDs ordered by expiry
 
@@ -13,12 +13,12 @@ item of minimal expiry, `setMin t` splits the set into the items with expiry `< 
 the rest (kept). The theorems below say that the array algorithm refines this, for every
 operation sequence (`einv_reachable`, `heap_inv_preserved`).
 
-Full strength: everything about `Heap` (both min and max heaps) and `ExpiryHeap`.
-Partial: `EMap` — the bucket heap inside it is a `Heap`, so its array part is covered by
-`heap_inv_preserved`/`first_is_min`; of the map-level statements only idempotence / zero-expiry /
-membership (`emap_*`) are proved; "SetMin evicts exactly the entries with expiry below, for all
-entries with non-zero expiry" for `EMap` is **not** proved in Lean (`emap_partial` lists what is);
-it is checked on the real code by the oracle of the emap tie on every run.
+Full strength: `Heap` (both min and max heaps), `ExpiryHeap`, and `EMap` (abstract value: the
+relation `Tr e id t`, "id is tracked with expiry t", a partial map ID → non-zero expiry; invariant
+`EMInv`: `seen` ↔ buckets ↔ bucket heap consistent). All theorems quantify over every operation
+sequence from the empty structure. Each exported `EMap` method is one atomic step (it holds `e.mu`
+for its whole body — an assumption about the code, listed in `checks/C25.json`, exercised by the
+concurrent `-race` tie).
 -/
 namespace HyperModel.Props.C25
 open HyperModel.Heap HyperModel.EHeap HyperModel.EMap
@@ -196,31 +196,101 @@ theorem setMin_removes_exactly_below (ops : List (EOp α)) (t : Int) :
     (∀ y, y ∈ (eh.setMin t).1.items → t ≤ ExpItem.expiry y) :=
   (setMin_spec _ (einv_reachable ops) t).2
 
-/-! ## `EMap` (partial, see the header) -/
+/-! ## `EMap` (replay protection) -/
 
-/-- what is proved about `EMap` at the map level: an ID that is tracked, or a zero expiry, makes
-`add` a no-op (first expiry wins; genesis entries are never tracked); a new ID with non-zero expiry
-becomes tracked and nothing else changes membership; `Any` is membership in `seen`. -/
-theorem emap_partial (e : EMap) (id : ID) (t : Int) :
-    (e.seen id = true → e.add1 id t = e) ∧
-    (e.add1 id 0 = e) ∧
-    (t ≠ 0 → (e.add1 id t).seen id = true) ∧
-    (∀ j, j ≠ id → (e.add1 id t).seen j = e.seen j) ∧
-    (∀ ids, e.any ids = ids.any e.seen) := by
-  refine ⟨?_, by simp [EMap.add1], ?_, ?_, fun _ => rfl⟩
-  · intro h; simp [EMap.add1, h]
-  · intro ht
-    by_cases hs : e.seen id = true
-    · simp [EMap.add1, hs]
-    · simp only [EMap.add1, if_neg ht, hs, Bool.false_eq_true, if_false]
-      split <;> simp
-  · intro j hj
-    by_cases ht : t = 0
-    · simp [EMap.add1, ht]
-    · by_cases hs : e.seen id = true
-      · simp [EMap.add1, hs]
-      · simp only [EMap.add1, if_neg ht, hs, Bool.false_eq_true, if_false]
-        split <;> simp [hj]
+inductive EMOp where
+  | add (items : List (ID × Int))
+  | setMin (t : Int)
+
+def emapply (e : EMap) : EMOp → EMap
+  | .add items => e.add items
+  | .setMin t => (e.setMin t).1
+
+/-- **emap_inv_reachable**: after every sequence of `Add`/`SetMin`: the bucket heap satisfies
+`heap_inv_preserved`'s invariant, every heap entry points to a live bucket that lists the entry's ID,
+every bucket has exactly one heap entry, `seen` = union of the buckets, buckets are duplicate-free
+and pairwise disjoint, and no bucket has timestamp 0. -/
+theorem emap_inv_reachable (ops : List EMOp) : EMInv (ops.foldl emapply EMap.new) := by
+  suffices ∀ e, EMInv e → EMInv (ops.foldl emapply e) from this _ EMInv.new
+  induction ops with
+  | nil => intro e hI; exact hI
+  | cons op rest ih =>
+    intro e hI
+    apply ih
+    cases op with
+    | add items => exact add_inv e hI items
+    | setMin t => exact (EMap.setMin_spec e hI t).1
+
+/-- every tracked ID has exactly one, non-zero, expiry; `seen` is exactly the tracked IDs -/
+theorem emap_tracked_nonzero (ops : List EMOp) (id : ID) :
+    let e := ops.foldl emapply EMap.new
+    (e.seen id = true ↔ ∃ t, Tr e id t) ∧
+    (∀ t, Tr e id t → t ≠ 0) ∧ (∀ t1 t2, Tr e id t1 → Tr e id t2 → t1 = t2) := by
+  intro e
+  have hI := emap_inv_reachable ops
+  refine ⟨hI.seen id, ?_, hI.disj id⟩
+  rintro t ⟨l, hl, _⟩
+  exact (hI.nodup t l hl).2
+
+/-- **emap_add_idempotent**: adding a tracked ID (with any expiry) or any ID with expiry 0 changes
+nothing at all; adding an untracked ID with non-zero expiry `t` tracks exactly `id ↦ t` in addition. -/
+theorem emap_add_idempotent (ops : List EMOp) (id : ID) (t : Int) :
+    let e := ops.foldl emapply EMap.new
+    ((∃ u, Tr e id u) → e.add1 id t = e) ∧ (t = 0 → e.add1 id t = e) ∧
+    (∀ j u, Tr (e.add1 id t) j u ↔ Tr e j u ∨ (j = id ∧ u = t ∧ t ≠ 0 ∧ ¬ ∃ v, Tr e id v)) := by
+  intro e
+  have hI := emap_inv_reachable ops
+  refine ⟨fun h => add1_noop e id t (Or.inr ((hI.seen id).2 h)), fun h => add1_noop e id t (Or.inl h), ?_⟩
+  intro j u
+  rw [(add1_inv e hI id t).2 j u]
+  have : e.seen id = false ↔ ¬ ∃ v, Tr e id v := by
+    rw [← hI.seen id]; cases e.seen id <;> simp
+  rw [this]
+
+/-- **emap_setMin_removes_exactly_below**: `SetMin t` returns, each once, exactly the tracked IDs whose
+expiry is `< t`, and afterwards exactly the others are tracked (with their expiries). By
+`emap_tracked_nonzero` these are all entries with non-zero expiry (zero-expiry adds are never tracked). -/
+theorem emap_setMin_removes_exactly_below (ops : List EMOp) (t : Int) :
+    let e := ops.foldl emapply EMap.new
+    (∀ id, id ∈ (e.setMin t).2 ↔ ∃ u, u < t ∧ Tr e id u) ∧ (e.setMin t).2.Nodup ∧
+    (∀ id u, Tr (e.setMin t).1 id u ↔ Tr e id u ∧ t ≤ u) :=
+  (EMap.setMin_spec _ (emap_inv_reachable ops) t).2
+
+/-- **emap_contains_eq_spec**: `Any` = some listed ID is tracked. `Contains(items, marker, stop)` returns
+the initial marker plus — without `stop` — every position whose ID is tracked, or — with `stop` — only
+the first position that is unmarked and whose ID is tracked (the early exit). -/
+theorem emap_contains_eq_spec (ops : List EMOp) (ids : List ID) (marker : List Nat) (stop : Bool) (j : Nat) :
+    let e := ops.foldl emapply EMap.new
+    (e.any ids = true ↔ ∃ id, id ∈ ids ∧ ∃ t, Tr e id t) ∧
+    (j ∈ e.contains ids marker stop ↔
+      j ∈ marker ∨
+      ((∃ id, ids[j]? = some id ∧ ∃ t, Tr e id t) ∧
+        (stop = true → ∀ j', j' < j → j' ∈ marker ∨ ∀ id, ids[j']? = some id → ¬ ∃ t, Tr e id t))) := by
+  intro e
+  have hI := emap_inv_reachable ops
+  constructor
+  · simp only [EMap.any, List.any_eq_true]
+    constructor
+    · rintro ⟨id, h1, h2⟩; exact ⟨id, h1, (hI.seen id).1 h2⟩
+    · rintro ⟨id, h1, h2⟩; exact ⟨id, h1, (hI.seen id).2 h2⟩
+  · have hf : ∀ id, e.seen id = false ↔ ¬ ∃ t, Tr e id t := by
+      intro id; rw [← hI.seen id]; cases e.seen id <;> simp
+    simp only [EMap.contains]
+    rw [containsLoop_spec]
+    simp only [Nat.zero_le, true_and, Nat.sub_zero, true_implies]
+    constructor
+    · rintro (h | ⟨⟨id, h1, h2⟩, h3⟩)
+      · exact Or.inl h
+      · refine Or.inr ⟨⟨id, h1, (hI.seen id).1 h2⟩, fun hs j' hj' => ?_⟩
+        rcases h3 hs j' hj' with h | h
+        · exact Or.inl h
+        · exact Or.inr fun id hid => (hf id).1 (h id hid)
+    · rintro (h | ⟨⟨id, h1, h2⟩, h3⟩)
+      · exact Or.inl h
+      · refine Or.inr ⟨⟨id, h1, (hI.seen id).2 h2⟩, fun hs j' hj' => ?_⟩
+        rcases h3 hs j' hj' with h | h
+        · exact Or.inl h
+        · exact Or.inr fun id hid => (hf id).2 (h id hid)
 
 /-! ## Non-vacuity -/
 
